@@ -74,6 +74,12 @@ impl FrameAckQueue {
                         last_entry.nonce ^= nonce;
                     }
                 } else {
+                    if self.entries.len() >= self.receive_window.size as usize {
+                        // Acknowledgements cannot be sent as fast as frames arrive: forget the
+                        // oldest group rather than grow without bound (its frames will be resent)
+                        self.entries.pop_front();
+                    }
+
                     self.entries.push_back(frame::AckGroup {
                         base_id: frame_id,
                         bitfield: 0x00000001,
